@@ -80,6 +80,11 @@ func (a *netRecv) Receive(c *actor.Context) {
 		a.mu.Lock()
 		a.got = append(a.got, netGot{msg: m, sender: pidStr(c.Sender())})
 		a.mu.Unlock()
+		if sp := c.Sender(); sp != nil && strings.HasPrefix(sp.ID, "response/") {
+			// like many actors this one answers whoever asks: a message that is no request but shows up
+			// with a requester's response PID as its sender gets an answer too (and that requester the wrong reply)
+			c.Respond(&remote.TestMessage{Data: []byte("rep-" + d)})
+		}
 	}
 }
 
